@@ -183,7 +183,11 @@ Definition run_op_ll (m : model) (stateful reset : bool) (from_state : nat -> op
 
 (* Model.call: `try: with self.with_state(from_state, stateful, reset): self._load_proxys(keep=True);
    with self.with_feedback(forced_feedback, stateful=stateful): state = self._call(x)  finally: self._clean_proxys()`.
-   No reload of the proxies after the single step, and with_feedback inherits [stateful]. *)
+   No reload of the proxies after the single step, and with_feedback inherits [stateful].
+   NOT modelled (neither here nor in ModelSem): Model.call also passes `reset` to with_feedback, so that
+   call(x, forced_feedback={...}, reset=True) clamps ZERO feedback on every receiver and ignores the forced values
+   (observed on /repo: receiver x + 100 fb, forced 5: 502 with reset=False, 2 with reset=True).  The scenario
+   generators never combine reset=True with a forced feedback in a call. *)
 Definition call_op_ll (m : model) (stateful reset : bool) (from_state : nat -> option vec)
            (ext forced : nat -> option vec) (e : lenv) : lenv * list (list vec) * bool :=
   let e0 := load_proxys m true (start_env_ll m reset from_state e) in
